@@ -35,7 +35,7 @@ InitW(cap) ==
     skipped |-> <<>>,      \* mandatory entries that were passed over (lost unless they show up later = reordered)
     last    |-> NoRec,     \* last record queued for this instance (kernel tail merge)
     ck      |-> EmptyFn,   \* rename cookie -> name of the Rename event
-    phase   |-> "open",    \* open | closed
+    phase   |-> "open",    \* open | closing (Close called, not yet returned) | closed
     evc     |-> FALSE, errc |-> FALSE,
     nq      |-> 0,         \* records queued since the stream was last known to be drained
     ovf     |-> FALSE,     \* the kernel queue may have overflowed
@@ -67,6 +67,21 @@ Relax(ws, S) ==
   ELSE [ws EXCEPT !.exp = [k \in 1..Len(ws.exp) |->
             IF k > ws.eh /\ ws.exp[k].ino \in S /\ ws.exp[k].min = 1
             THEN [ws.exp[k] EXCEPT !.min = 0] ELSE ws.exp[k]]]
+\* The Remove event of a deleted watched path is suppressed while its parent directory is listed (the
+\* parent reports it).  When the parent leaves the list before the record is processed the event may appear.
+Unsuppress(ws, P) ==
+  IF ws.eh >= Len(ws.exp) THEN ws
+  ELSE [ws EXCEPT !.exp = [k \in 1..Len(ws.exp) |->
+            IF k > ws.eh /\ ws.exp[k].sup /\ Dir(ws.exp[k].name) = P
+            THEN [ws.exp[k] EXCEPT !.sup = FALSE] ELSE ws.exp[k]]]
+
+\* A Remove event for a watched path is suppressed when its parent directory is listed at the time the
+\* record is processed: listing the parent while such a record is still pending makes it optional.
+RelaxChildRemoves(ws, P) ==
+  IF ws.eh >= Len(ws.exp) THEN ws
+  ELSE [ws EXCEPT !.exp = [k \in 1..Len(ws.exp) |->
+            IF k > ws.eh /\ ws.exp[k].self /\ ws.exp[k].min = 1 /\ HasBit(ws.exp[k].op, OpRemove) /\ Dir(ws.exp[k].name) = P
+            THEN [ws.exp[k] EXCEPT !.min = 0] ELSE ws.exp[k]]]
 RelaxAll(ws) == Relax(ws, {ws.exp[k].ino : k \in (ws.eh+1)..Len(ws.exp)})
 
 ---------------------------------------------------------------------------
@@ -95,15 +110,16 @@ ApplyRec(ws, r, s, maxq) ==
       pst   == IF dself THEN ParentState(ws, e.path) ELSE "none"
       merged== ws.last.ino = r.ino /\ ws.last.m = r.m /\ ws.last.n = r.n
       min   == IF e.st # "live" \/ merged \/ ws.ovf \/ pst = "other" THEN 0 ELSE 1
-      ent   == [seq |-> s, ino |-> r.ino, name |-> name, op |-> op, from |-> from, min |-> min, ovf |-> ws.ovf]
+      ent   == [seq |-> s, ino |-> r.ino, name |-> name, op |-> op, from |-> from,
+                min |-> IF pst = "live" THEN 0 ELSE min, ovf |-> ws.ovf, self |-> (r.n = ""), sup |-> (pst = "live")]
       queued== vis # 0 \/ ign
-      w1 == IF op = 0 \/ pst = "live" \/ (mself /\ e.rec) THEN ws ELSE [ws EXCEPT !.exp = Append(@, ent)]
+      w1 == IF op = 0 \/ (mself /\ e.rec) THEN ws ELSE [ws EXCEPT !.exp = Append(@, ent)]
       w2 == IF HasBit(vis, IN_MOVED_FROM) /\ r.ck # 0
             THEN [w1 EXCEPT !.ck = (r.ck :> name) @@ @] ELSE w1
       w3 == IF e.st = "ending" /\ e.how = "move" /\ (HasBit(r.m, IN_DELETE_SELF) \/ ign)
             THEN [w2 EXCEPT !.flags = @ \cup {"msgone"}] ELSE w2
       w4 == IF isEnd /\ e.st = "live"
-            THEN [w3 EXCEPT !.uw[r.ino].st = "ending", !.uw[r.ino].endSeq = s,
+            THEN [Unsuppress(w3, e.path) EXCEPT !.uw[r.ino].st = "ending", !.uw[r.ino].endSeq = s,
                             !.uw[r.ino].how = IF mself THEN "move" ELSE "delete",
                             !.gonePaths = @ \cup {e.path},
                             !.nontriv = @ \cup {"endofwatch"}]
@@ -120,15 +136,31 @@ ApplyRec(ws, r, s, maxq) ==
 
 Match(x, v) == x.name = v.name /\ x.op = v.op
 
-RECURSIVE FirstMatch(_, _, _, _)
-FirstMatch(ws, v, i, lim) ==
-  IF i > Len(ws.exp) \/ i > lim THEN 0
-  ELSE IF Match(ws.exp[i], v) THEN i ELSE FirstMatch(ws, v, i + 1, lim)
+(* Which expected entries may a received event v stand for?  Walking from    *)
+(* the head over optional entries only: the earliest optional match and the  *)
+(* first mandatory match are the candidates (identical optional entries      *)
+(* after the first are dominated by it); the walk stops at the first         *)
+(* mandatory entry.  More than one candidate means the trace does not        *)
+(* determine the matching; the trace specification then branches and TLC     *)
+(* searches for a matching without violation.                                *)
+RECURSIVE Cands(_, _, _, _, _)
+Cands(ws, v, i, lim, haveOpt) ==
+  IF i > Len(ws.exp) \/ i > lim THEN {}
+  ELSE LET x == ws.exp[i] IN
+       IF x.min = 1 THEN (IF Match(x, v) THEN {i} ELSE {})
+       ELSE IF Match(x, v) /\ ~haveOpt THEN {i} \cup Cands(ws, v, i + 1, lim, TRUE)
+       ELSE Cands(ws, v, i + 1, lim, haveOpt)
 
 RECURSIVE FirstMand(_, _, _)
 FirstMand(ws, i, lim) ==
   IF i > Len(ws.exp) \/ i > lim THEN 0
   ELSE IF ws.exp[i].min = 1 THEN i ELSE FirstMand(ws, i + 1, lim)
+
+\* an event may also stand for an entry behind a mandatory one (that one is then lost or reordered)
+RECURSIVE FirstMatch(_, _, _, _)
+FirstMatch(ws, v, i, lim) ==
+  IF i > Len(ws.exp) \/ i > lim THEN 0
+  ELSE IF Match(ws.exp[i], v) THEN i ELSE FirstMatch(ws, v, i + 1, lim)
 
 HasUnknown(p) == \E k \in 1..Len(p) : Len(p[k]) > 0 /\ SubSeq(p[k], 1, 1) = "?"
 
@@ -144,37 +176,41 @@ CloseLag(ws, seq) ==
   LET G == {i \in DOMAIN ws.uw : ws.uw[i].st = "ending" /\ ws.uw[i].endSeq < seq} IN
   IF G = {} THEN ws ELSE [ws EXCEPT !.uw = Without(@, G)]
 
+Consume(ws, v, j) ==
+  LET x  == ws.exp[j]
+      w1 == PassOver(ws, j)
+      w2 == IF x.from # v.from
+            THEN Bad(w1, {"C11"}, IF v.from = <<>> THEN "renamed_from_missing" ELSE "renamed_from_wrong") ELSE w1
+      w3 == IF x.sup THEN Bad(w2, {"C09", "C02"}, "remove_reported_although_parent_listed") ELSE w2
+      w4 == CloseLag(w3, x.seq)
+  IN IF x.from # <<>> THEN Note(w4, "rename_pair") ELSE w4
+
+\* the set of possible successor states
 RecvEv(ws0, v) ==
   LET ws == IF ws0.phase = "closed" THEN [ws0 EXCEPT !.postClose = @ + 1] ELSE ws0 IN
-  IF v.op = 0 THEN Bad(ws, {"C02"}, "empty_op")
-  ELSE IF ws.fog THEN ws
+  IF v.op = 0 THEN {Bad(ws, {"C02"}, "empty_op")}
+  ELSE IF ws.fog THEN {ws}
   ELSE
   LET lim == ws.eh + ScanWindow
-      i   == FirstMatch(ws, v, ws.eh + 1, lim)
+      C   == Cands(ws, v, ws.eh + 1, lim, FALSE)
   IN
-  IF i # 0 THEN
-     LET k == IF ws.exp[i].min = 0 THEN FirstMand(ws, i + 1, lim) ELSE 0
-         j == IF k # 0 /\ Match(ws.exp[k], v) THEN k ELSE i
-         x == ws.exp[j]
-         w1 == PassOver(ws, j)
-         w2 == IF x.from # v.from
-               THEN Bad(w1, {"C11"}, IF v.from = <<>> THEN "renamed_from_missing" ELSE "renamed_from_wrong") ELSE w1
-         w3 == CloseLag(w2, x.seq)
-     IN IF x.from # <<>> THEN Note(w3, "rename_pair") ELSE w3
+  IF C # {} THEN {Consume(IF Cardinality(C) > 1 THEN Note(ws, "ambiguous_match") ELSE ws, v, j) : j \in C}
   ELSE
      LET sk == {q \in 1..Len(ws.skipped) : Match(ws.skipped[q], v)} IN
      IF sk # {} THEN
         LET q == CHOOSE q \in sk : \A q2 \in sk : q <= q2 IN
-        Bad([ws EXCEPT !.skipped = SubSeq(@, 1, q - 1) \o SubSeq(@, q + 1, Len(@))], {"C03"}, "reordered:" \o OpName(v.op))
+        {Bad([ws EXCEPT !.skipped = SubSeq(@, 1, q - 1) \o SubSeq(@, q + 1, Len(@))], {"C03"}, "reordered:" \o OpName(v.op))}
      ELSE
-        LET h == FirstMand(ws, ws.eh + 1, lim) IN
-        IF h # 0 /\ ws.exp[h].op = v.op /\ ws.exp[h].name # v.name
-        THEN Bad(PassOver(ws, h), {"C08", "C01", "C02"}, "wrong_name:" \o OpName(v.op))
+        LET h == FirstMand(ws, ws.eh + 1, lim)
+            i == FirstMatch(ws, v, ws.eh + 1, lim) IN
+        IF i # 0 THEN {Consume(ws, v, i)}             \* passes over a mandatory entry: lost or reordered, decided later
+        ELSE IF h # 0 /\ ws.exp[h].op = v.op /\ ws.exp[h].name # v.name
+        THEN {Bad(PassOver(ws, h), {"C08", "C01", "C02"}, "wrong_name:" \o OpName(v.op))}
         ELSE IF h # 0 /\ ws.exp[h].name = v.name
-        THEN Bad(PassOver(ws, h), {"C01", "C02", "C15"}, "wrong_op:" \o OpName(ws.exp[h].op) \o "->" \o OpName(v.op))
-        ELSE Bad(ws, {"C02"} \cup (IF HasUnknown(v.name) THEN {"C08"} ELSE {})
+        THEN {Bad(PassOver(ws, h), {"C01", "C02", "C15"}, "wrong_op:" \o OpName(ws.exp[h].op) \o "->" \o OpName(v.op))}
+        ELSE {Bad(ws, {"C02"} \cup (IF HasUnknown(v.name) THEN {"C08"} ELSE {})
                              \cup (IF v.name \in ws.gonePaths \/ (Len(v.name) > 1 /\ PFront(v.name) \in ws.gonePaths) THEN {"C09"} ELSE {}),
-                 "phantom:" \o OpName(v.op))
+                  "phantom:" \o OpName(v.op))}
 
 RecvErr(ws, cls) ==
   IF cls = "overflow"
@@ -183,14 +219,15 @@ RecvErr(ws, cls) ==
   ELSE Bad(ws, {"C10"}, "spurious_error:" \o cls \o (IF "msgone" \in ws.flags THEN ":after_move_then_delete" ELSE ""))
 
 RecvClosed(ws, ch) ==
-  IF ws.phase # "closed" THEN Bad(ws, {"C06"}, "channel_closed_without_close")
+  IF ws.phase = "open" THEN Bad(ws, {"C06"}, "channel_closed_without_close")
   ELSE IF ch = "ev" THEN [ws EXCEPT !.evc = TRUE] ELSE [ws EXCEPT !.errc = TRUE]
 
+\* set of possible successor states
 RecvVal(ws, ch, v) ==
   CASE v.t = "ev"     -> RecvEv(ws, v)
-    [] v.t = "err"    -> RecvErr(ws, v.cls)
-    [] v.t = "closed" -> RecvClosed(ws, ch)
-    [] OTHER          -> ws
+    [] v.t = "err"    -> {RecvErr(ws, v.cls)}
+    [] v.t = "closed" -> {RecvClosed(ws, ch)}
+    [] OTHER          -> {ws}
 
 \* The stream is drained: nothing is queued, buffered or being sent.
 Settle(ws) ==
@@ -214,7 +251,8 @@ Entry(P, mask, rec) == [path |-> P, mask |-> mask, st |-> "live", how |-> "", en
 
 \* Add(P) where the cleaned argument P currently resolves to inode i (reserr = "") or fails to resolve.
 IdealAdd(ws, P, i, reserr, mask, ret) ==
-  IF ws.phase = "closed" THEN (IF ret = "ErrClosed" THEN ws ELSE Bad(ws, {"C06"}, "add_after_close:" \o ret))
+  IF ws.phase = "closing" THEN ws
+  ELSE IF ws.phase = "closed" THEN (IF ret = "ErrClosed" THEN ws ELSE Bad(ws, {"C06"}, "add_after_close:" \o ret))
   ELSE IF reserr # "" THEN
        (IF ret = "ok" THEN Bad(ws, {"C04"}, "add_ok_on_unresolvable:" \o reserr)
         ELSE IF ret = "ErrClosed" \/ ret = "ErrNonExistentWatch" THEN Bad(ws, {"C04"}, "add_wrong_error:" \o ret)
@@ -236,14 +274,15 @@ IdealAdd(ws, P, i, reserr, mask, ret) ==
   ELSE IF i \in DOMAIN ws.uw THEN
        IF ws.uw[i].st = "live" THEN Note(ws, "alias_add")  \* same file under another name: nothing changes
        ELSE [ws EXCEPT !.fog = TRUE]
-  ELSE [ws EXCEPT !.uw = (i :> Entry(P, mask, FALSE)) @@ @, !.gonePaths = @ \ {P}]
+  ELSE RelaxChildRemoves([ws EXCEPT !.uw = (i :> Entry(P, mask, FALSE)) @@ @, !.gonePaths = @ \ {P}], P)
 
 IdealRemove(ws, P, ret) ==
-  IF ws.phase = "closed" THEN (IF ret = "ok" THEN ws ELSE Bad(ws, {"C06"}, "remove_after_close:" \o ret))
+  IF ws.phase = "closing" THEN ws
+  ELSE IF ws.phase = "closed" THEN (IF ret = "ok" THEN ws ELSE Bad(ws, {"C06"}, "remove_after_close:" \o ret))
   ELSE
   LET same == ByPath(ws, P)
       live == {j \in same : ws.uw[j].st = "live"}
-      w1   == Relax([ws EXCEPT !.uw = Without(@, same)], same)
+      w1   == Unsuppress(Relax([ws EXCEPT !.uw = Without(@, same)], same), P)
   IN
   IF live # {} THEN
        (IF ret = "ok" THEN w1 ELSE Bad(w1, {"C04"}, "remove_failed:" \o ret))
@@ -254,7 +293,8 @@ IdealRemove(ws, P, ret) ==
 
 \* WatchList returned the sequence wl (wlnil: it returned nil)
 CheckWL(ws, wl, wlnil) ==
-  IF ws.phase = "closed" THEN (IF wlnil THEN ws ELSE Bad(ws, {"C06"}, "watchlist_after_close"))
+  IF ws.phase = "closing" THEN ws
+  ELSE IF ws.phase = "closed" THEN (IF wlnil THEN ws ELSE Bad(ws, {"C06"}, "watchlist_after_close"))
   ELSE IF ws.fog THEN ws
   ELSE
   LET set   == {wl[k] : k \in 1..Len(wl)}
